@@ -298,6 +298,52 @@ pub fn gen(args: &Args, out: &mut dyn Write) {
             writeln!(out, "{}", json!({"k": format!("D{}-{}", args.seed, i), "s": 112, "v": v, "Z": z, "A": a, "ty": ty, "c05": 1, "zsc": 0, "asc": 0, "skip": 0})).unwrap();
         }
     }
+    // 1f. "near": on the twelfth-of-a-pixel lattice (vertices are no binary fractions), an edge of 4..7 px whose
+    // line passes a pixel centre at the smallest distance the lattice allows that is still outside the statement's
+    // 0.001 px band (edge function = 1 unit^2: 0.0010..0.0019 px), the centre inside or outside; coverage only
+    if mode == "random" || mode == "all" {
+        let mut r4 = Rng::new(args.seed ^ 0x2E4F);
+        let gcd = |mut a: i64, mut b: i64| { while b != 0 { (a, b) = (b, a % b); } a.abs() };
+        let mut made = 0;
+        let mut tries = 0;
+        while made < (if thorough { 6000 } else { 600 }) && tries < 200_000 {
+            tries += 1;
+            let (dx, dy) = (r4.range(8, 72) * if r4.chance(1, 2) { -1 } else { 1 }, r4.range(8, 72) * if r4.chance(1, 2) { -1 } else { 1 });
+            let l1 = dx.abs() + dy.abs();
+            // out of the band: 1000 * 1 > L1 * 12; close: L2 >= 45 units
+            if gcd(dx, dy) != 1 || l1 > 83 || dx * dx + dy * dy < 45 * 45 {
+                continue;
+            }
+            let c = [12 * r4.range(4, 6) + 6, 12 * r4.range(4, 6) + 6];
+            let side = if r4.chance(1, 2) { 1 } else { -1 };
+            // P = C - (u, v) with dx * v - dy * u = side, (u, v) close to d / 2
+            let mut best: Option<(i64, i64)> = None;
+            for u in (dx / 2 - dx.abs())..=(dx / 2 + dx.abs()) {
+                let num = side + dy * u;
+                if num % dx == 0 {
+                    let v = num / dx;
+                    if best.map_or(true, |(bu, _)| (u - dx / 2).abs() < (bu - dx / 2).abs()) {
+                        best = Some((u, v));
+                    }
+                }
+            }
+            let Some((u, v)) = best else { continue };
+            let p = [c[0] - u, c[1] - v];
+            let q = [p[0] + dx, p[1] + dy];
+            // third vertex well away from the line, on either side
+            let k = r4.range(1, 3) * if r4.chance(1, 2) { 1 } else { -1 };
+            let r = [c[0] - dy * k / 2 + r4.range(-3, 3), c[1] + dx * k / 2 + r4.range(-3, 3)];
+            if [p, q, r].iter().any(|w| w[0] < 0 || w[1] < 0 || w[0] > 160 || w[1] > 160) {
+                continue;
+            }
+            let mut vv = [p, q, r];
+            if r4.chance(1, 2) { vv.swap(0, 1); }
+            if r4.chance(1, 3) { vv.swap(1, 2); }
+            writeln!(out, "{}", json!({"k": format!("N{}-{}", args.seed, made), "s": 112, "v": vv, "Z": [20, 20, 20], "A": [[1], [2], [3]], "ty": "f32",
+                                         "c05": 0, "zsc": 0, "asc": 0, "skip": 0})).unwrap();
+            made += 1;
+        }
+    }
     if mode == "long" {
         for i in 0..(if thorough { 400 } else { 40 }) {
             let len = rng.range(258, 700);
